@@ -3027,6 +3027,13 @@ class StateEngine(object):
                     )
 
                 max_concurrency = state.get("MaxConcurrency", 0)
+                if (isinstance(max_concurrency, bool) or not
+                    isinstance(max_concurrency, int) or max_concurrency < 0):
+                    # No batch of iterations could be launched, nothing would join.
+                    raise ValueError(
+                        "\"MaxConcurrency\" is not a non-negative integer: "
+                        "Illegal State Machine."
+                    )
                 if max_concurrency == 0:
                     max_concurrency = length
 
